@@ -51,6 +51,22 @@ def install_phase_wrappers():
     _wrapped = True
 
 
+def stack_phase():
+    """'p' when the objective is being called from inside a shipped listener / painter (a probe, not a trial): some
+    frame of the current call stack runs code of iOpt/output_system or iOpt/method/listener.py.  Lets listeners be
+    attached directly (no forwarding proxy in between), exactly as a user would."""
+    import sys
+    f = sys._getframe(2)
+    n = 0
+    while f is not None and n < 60:
+        fn = f.f_code.co_filename
+        if "/iOpt/output_system/" in fn or fn.endswith("/iOpt/method/listener.py"):
+            return "p"
+        f = f.f_back
+        n += 1
+    return "g"
+
+
 class RecordingProblem(Problem):
     """f(y) = G((y-lower)/side) with a call log.  log entries: dict(i, y, v, ph, exc)."""
 
@@ -85,7 +101,7 @@ class RecordingProblem(Problem):
     def Calculate(self, point, functionValue):
         y = np.array(point.floatVariables, dtype=float, copy=True)
         i = len(self.log) + 1
-        ph = PHASE[-1] if PHASE else "g"
+        ph = PHASE[-1] if PHASE else stack_phase()
         ent = {"i": i, "y": y, "v": None, "ph": ph, "exc": None}
         self.log.append(ent)
         if ph == "g":
@@ -138,7 +154,7 @@ class ProxyProblem(Problem):
     def Calculate(self, point, functionValue):
         y = np.array(point.floatVariables, dtype=float, copy=True)
         i = len(self.log) + 1
-        ph = PHASE[-1] if PHASE else "g"
+        ph = PHASE[-1] if PHASE else stack_phase()
         ent = {"i": i, "y": y, "v": None, "ph": ph, "exc": None}
         self.log.append(ent)
         if ph == "g":
